@@ -59,11 +59,14 @@ FLOORS = {
     'history:fail-then-locking-step': (0.15, 'history:run'),
     'history:fault-hit': (0.5, 'history:fault-run'),
     'history:nested-collation': (0.10, 'history:base-run'),
+    'history:array-map-operand-locking-collation': (0.25, 'history:base-run'),
     'env:canary-asked': (0.2, 'env:query'),
-    'env:positive-control-ok': (0.9, 'env:batch'),
+    'env:positive-control-ok': (0.9, 'env:batch'), 'env:grant-then-default-on-one-token': (0.25, 'env:query'),
+    'env:dynamic-reference': (0.4, 'env:query'), 'env:granted-evaluation-sees-canary': (0.2, 'env:granted-evaluation'),
     'entities:entity-declaration': (0.4, 'entities:text'),
     'entities:positive-control-ok': (0.9, 'entities:batch'),
     'threads:locale-collation-job': (0.3, 'threads:case'),
+    'localeenv:utf8-locale': (0.3, 'localeenv:config'),
 }
 
 CANARY_NAME = 'VP_C19_CANARY'
@@ -108,6 +111,18 @@ COLL_TEMPLATES = {
     'deep-equal-nodes': ('2.0', "deep-equal(/r/a[1], /r/a[2]{C})"),
     'sort': ('3.1', "sort(({B}, {A}){C})"),
     'array-sort': ('3.1', "array:sort([{B}, {A}]{C})"),
+    # operands containing arrays and maps (3.1): members are compared by recursive calls under the same collation
+    'deep-equal-array': ('3.1', "deep-equal([{A}, {B}], [{A}, {B}]{C})"),
+    'deep-equal-array-diff': ('3.1', "deep-equal([{A}, [{B}]], [{A}, [{A}]]{C})"),
+    'deep-equal-map': ('3.1', "deep-equal(map{{'k': {A}, 'l': [{B}, {A}]}}, map{{'l': [{B}, {A}], 'k': {A}}}{C})"),
+    'deep-equal-nested': ('3.1', "deep-equal(({A}, [{B}, map{{1: [{A}, ({B}, {A})]}}], {B}), ({A}, [{B}, map{{1: [{A}, ({B}, {A})]}}], {B}){C})"),
+    'deep-equal-array-nodes': ('3.1', "deep-equal([/r/a[1], {A}], [/r/a[1], {A}]{C})"),
+    'index-of-array': ('3.1', "index-of(([{A}, {B}], {B}, [[{B}]]), {B}{C})"),
+    'distinct-values-array': ('3.1', "distinct-values(([{A}, {B}], {A}, [[{B}]]){C})"),
+    'sort-array-members': ('3.1', "sort(([{B}], [{A}], {A}){C})"),
+    'sort-key-array': ('3.1', "sort(({B}, {A}){C!}, function($x) {{ [$x, [{A}]] }})"),
+    'array-sort-nested': ('3.1', "array:sort([[{B}, {A}], [{A}]]{C})"),
+    'min-array': ('3.1', "min(([{A}, {B}], {A}){C})"),
     # raising inside (or around) the with-body
     'max-mixed': ('2.0', "max(({A}, 1){C})"),
     'distinct-error': ('2.0', "distinct-values(({A}, error()){C})"),
@@ -122,6 +137,8 @@ COLL_TEMPLATES = {
     'index-of-head': ('2.0', "index-of(({A}, {B}, {A}), {A}{C})[1]"),
     'some-distinct': ('2.0', "some $x in distinct-values(({A}, {B}){C}) satisfies $x = {A}"),
 }
+_ARRAY_MAP_TEMPLATES = {'deep-equal-array', 'deep-equal-array-diff', 'deep-equal-map', 'deep-equal-nested', 'deep-equal-array-nodes',
+                        'index-of-array', 'distinct-values-array', 'sort-array-members', 'sort-key-array', 'array-sort-nested', 'min-array'}
 NESTED_TEMPLATES = {
     'nest-for-distinct': ('2.0', "for $x in distinct-values(({A}, {B}, {A}){C}) return compare($x, {A}, {C2})"),
     'nest-for-index': ('2.0', "for $x in index-of(({A}, {B}, {A}), {A}{C}) return compare({B}, {A}, {C2})"),
@@ -650,7 +667,7 @@ def _judge_run(case, k, rec, discs):
             rec.notes.append(f'inconclusive: history child {what}: {canon(case)[:300]} fault={k}')
         return None
     recs = r['ok']['steps']
-    failed_coll = fail_then_lock = nested = False
+    failed_coll = fail_then_lock = nested = arrmap = False
     hit_any = False
     for i, (step, sr) in enumerate(zip(steps, recs)):
         out, label = sr['out'], sr['label']
@@ -701,10 +718,14 @@ def _judge_run(case, k, rec, discs):
                 failed_coll = True
             if step['k'] == 'nest' and _coll_class(step['c']) == 'locking' and _coll_class(step.get('c2')) == 'locking':
                 nested = True
+            if step['k'] == 'coll' and step['t'] in _ARRAY_MAP_TEMPLATES and _coll_class(step['c']) == 'locking':
+                arrmap = True
     if rec is not None:
         classes = ['history:run', 'history:base-run' if k == 0 else 'history:fault-run']
         if fail_then_lock:
             classes.append('history:fail-then-locking-step')
+        if arrmap and k == 0:
+            classes.append('history:array-map-operand-locking-collation')
         if nested and k == 0:
             classes.append('history:nested-collation')
         if k and hit_any:
@@ -758,14 +779,29 @@ _ENV_FORMS = [
     ('3.1', "[{N}] ! array:for-each(., environment-variable#1)"),
     ('3.1', "map{{'k': environment-variable({N})}}?k"),
     ('3.1', "array:size([available-environment-variables()])"),
+    # dynamically evaluated references (function items created while the expression runs)
+    ('3.0', "{N} ! environment-variable#1(.)"),
+    ('3.0', "for $v in ({N}, 'HOME') return environment-variable#1($v)"),
+    ('3.0', "let $f := environment-variable(?) return $f({N})"),
+    ('3.0', "for-each(({N}, 'HOME'), function($x) {{ environment-variable#1($x) }})"),
+    ('3.0', "let $f := function-lookup(xs:QName('fn:environment-variable'), 1) return ({N}, 'PATH') ! $f(.)"),
+    ('3.0', "let $g := available-environment-variables#0 return $g()[. = {N}]"),
+    ('3.0', "(environment-variable#1, environment-variable(?)) ! .({N})"),
+    ('3.0', "for-each-pair(({N}, 'HOME'), (1, 2), function($a, $b) {{ environment-variable#1($a) }})"),
 ]
+_ENV_DYNAMIC = tuple(range(20, 28)) + (2, 3, 4, 5, 6, 10, 11, 16, 17)
+_GRANTS = [[False], [False], [True, False], [True, False, False], [False, True, False], [True, True, False], [False, True, False, True, False]]
 # expected result under default settings, by form index (own derivation from "nothing observable")
 _ENV_EXPECT = {12: '[0]', 14: '[False]', 15: "['']", 8: "['']", 19: '[1]', 17: "[['array', [[]]]]"}
 _ENV_CTX = ['default', 'explicit-false', 'item', 'doc']
 
 _env_query = st.fixed_dictionaries({
-    'form': st.integers(0, len(_ENV_FORMS) - 1), 'name': st.sampled_from(_ENV_NAMES + [CANARY_NAME] * 6),
-    'byvar': st.booleans(), 'api': _api, 'ver': st.sampled_from(['3.0', '3.1']), 'ctx': st.sampled_from(_ENV_CTX)})
+    'form': st.one_of(st.integers(0, len(_ENV_FORMS) - 1), st.sampled_from(_ENV_DYNAMIC)),
+    'name': st.sampled_from(_ENV_NAMES + [CANARY_NAME] * 6),
+    'byvar': st.booleans(), 'api': st.sampled_from(['select', 'selector', 'token', 'selector', 'token']),
+    'ver': st.sampled_from(['3.0', '3.1']), 'ctx': st.sampled_from(_ENV_CTX),
+    # evaluations of ONE compiled Selector / token: True = XPathContext(allow_environment=True), False = default settings
+    'grants': st.sampled_from(_GRANTS)})
 env_case = st.fixed_dictionaries({'cfg': _cfg, 'queries': st.lists(_env_query, min_size=8, max_size=16)})
 
 
@@ -797,11 +833,30 @@ def _child_env(case):
                 ck['item'] = 'ctx-item'
             elif q['ctx'] == 'doc' and not case['cfg'].get('lxml'):
                 r = ET.ElementTree(root)
-            before = _snapshot(S)
-            out, site = _outcome(lambda: _evaluate(q['api'], expr, variables, {}, ver, r, ck))
-            after = _snapshot(S)
-            recs.append({'out': out, 'site': site, 'viol': _state_violations(before, after), 'expr': expr})
-            _restore(S, before)
+            grants = q.get('grants', [False]) if q['api'] != 'select' else [False]     # select() compiles per call
+            P = _parser_class(ver)
+            if variables:
+                ck['variables'] = variables
+            box = []
+            evs = []
+            for g in grants:
+                before = _snapshot(S)
+                kw = dict(ck, allow_environment=True) if g else ck
+
+                def run():
+                    if q['api'] == 'select':
+                        return elementpath.select(r, expr, parser=P, **kw)
+                    if not box:      # compiled once, evaluated for every grant
+                        box.append(elementpath.Selector(expr, parser=P) if q['api'] == 'selector' else P().parse(expr))
+                    if q['api'] == 'selector':
+                        return box[0].select(r, **kw)
+                    res = box[0].evaluate(elementpath.XPathContext(r, **kw))
+                    return list(res) if hasattr(res, '__next__') else res
+                out, site = _outcome(run)
+                after = _snapshot(S)
+                evs.append({'out': out, 'site': site, 'viol': _state_violations(before, after), 'granted': g})
+                _restore(S, before)
+            recs.append({'evs': evs, 'expr': expr})
         # positive control (not a verdict): with allow_environment=True the canary is visible to the functions
         P = _parser_class('3.1')
         ctx = elementpath.XPathContext(root, allow_environment=True)
@@ -821,27 +876,39 @@ def judge_env(case, rec: Recorder | None = None) -> list[Disc]:
             rec.cls('inconclusive:child-' + ('timeout' if 'timeout' in r else 'died'))
         return discs
     for q, sr in zip(case['queries'], r['ok']['recs']):
-        out = sr['out']
-        where = f'expr={sr["expr"]} name={q["name"]!r} api={q["api"]} ctx={q["ctx"]}'
-        form = _ENV_FORMS[q['form']][1].split('(')[0].replace('{', '').strip() or 'expr'
         fkey = f'form{q["form"]}'
-        for kind, exp, obs in sr['viol']:
-            discs.append(Disc(f'C19/{kind}/env', exp, obs, where))
-        if out[0] == 'escape':
-            discs.append(Disc(out[1], 'value or ElementPathError', out[2], where))
-        elif out[0] == 'ok':
-            want = _ENV_EXPECT.get(q['form'], '[]')
-            if CANARY_VALUE in out[1]:
-                discs.append(Disc(f'C19/env/canary-visible/{fkey}', want, out[1], where))
-            elif out[1] != want and not (q['form'] == 17 and out[1] == '[]'):    # select() flattens arrays
-                discs.append(Disc(f'C19/env/observable/{fkey}', want, out[1], where))
-        else:
-            # an error is "nothing observable" as well, but none is expected from these forms
-            discs.append(Disc(f'C19/env/error/{fkey}/{out[1]}', _ENV_EXPECT.get(q['form'], '[]'), out, where))
+        granted_before = False
+        for n_ev, ev in enumerate(sr['evs']):
+            out = ev['out']
+            where = f'expr={sr["expr"]} name={q["name"]!r} api={q["api"]} ctx={q["ctx"]} evaluation {n_ev} of grants {[e["granted"] for e in sr["evs"]]}'
+            for kind, exp, obs in ev['viol']:
+                discs.append(Disc(f'C19/{kind}/env', exp, obs, where))
+            if out[0] == 'escape':
+                discs.append(Disc(out[1], 'value or ElementPathError', out[2], where))
+            elif ev['granted']:
+                granted_before = True
+                if rec is not None:
+                    rec.cls('env:granted-evaluation')
+                    if CANARY_VALUE in canon(out) or CANARY_NAME in canon(out):
+                        rec.cls('env:granted-evaluation-sees-canary')
+                continue
+            elif out[0] == 'ok':
+                want = _ENV_EXPECT.get(q['form'], '[]')
+                sfx = '/after-granted-evaluation' if granted_before else ''
+                if CANARY_VALUE in out[1]:
+                    discs.append(Disc(f'C19/env/canary-visible/{fkey}{sfx}', want, out[1], where))
+                elif out[1] != want and not (q['form'] == 17 and out[1] == '[]'):    # select() flattens arrays
+                    discs.append(Disc(f'C19/env/observable/{fkey}{sfx}', want, out[1], where))
+            else:
+                # an error is "nothing observable" as well, but none is expected from these forms
+                discs.append(Disc(f'C19/env/error/{fkey}/{out[1]}', _ENV_EXPECT.get(q['form'], '[]'), out, where))
         if rec is not None:
             asked = q['name'] == CANARY_NAME or q['form'] in (9, 10, 11, 12, 19)
+            withdrawn = any(e['granted'] for e in sr['evs'][:-1])
             rec.case(['env', case['cfg'], q], nontrivial=asked, sample={'check': 'env', 'expr': sr['expr'], 'query': q},
-                     classes=['env:query'] + (['env:canary-asked'] if asked else []) + [f'env:api-{q["api"]}'])
+                     classes=['env:query'] + (['env:canary-asked'] if asked else []) + [f'env:api-{q["api"]}']
+                     + (['env:grant-then-default-on-one-token'] if withdrawn else [])
+                     + (['env:dynamic-reference'] if q['form'] in _ENV_DYNAMIC else []), n=len(sr['evs']))
     if rec is not None:
         rec.cls('env:batch')
         if r['ok']['positive']:
@@ -1253,10 +1320,143 @@ def judge_threads(case, rec: Recorder | None = None) -> list[Disc]:
 
 
 # --------------------------------------------------------------------------
+# locale variables of the process environment (fresh interpreter per configuration: exec, not fork)
+# --------------------------------------------------------------------------
+_LE_VARS = ('LC_ALL', 'LC_COLLATE', 'LANG')
+_LE_VALUES = (None, 'C.UTF-8', 'C.utf8', 'garbage', 'en_US.UTF-8', 'POSIX', '')
+_LE_QUERIES = [('2.0', "default-collation()"), ('2.0', "compare('a', 'B')"), ('2.0', "compare('\u00e4', 'z')"), ('2.0', "max(('a', 'B'))"),
+               ('2.0', "distinct-values(('a', 'A', 'a'))"), ('2.0', "index-of(('a', 'B'), 'B')"), ('2.0', "contains('abc', 'B')"),
+               ('2.0', "deep-equal('a', 'A')"), ('2.0', "'a' lt 'B'"), ('2.0', "min(('b', 'B', '\u00e9'))"), ('3.1', "sort(('b', 'B', 'a', '\u00e9'))"),
+               ('3.1', "deep-equal(['a'], ['A'])"), ('3.1', "array:sort(['b', 'B'])"), ('2.0', "starts-with('Abc', 'a')"),
+               ('2.0', "substring-after('aBc', 'b')")]
+_LE_SCRIPT = ("import sys, json\n"
+              "sys.path[:0] = json.loads(sys.argv[1])\n"
+              "from vp.checks import c19\n"
+              "sys.stdout.write('@@C19@@' + json.dumps(c19._child_localeenv(), default=repr))\n")
+
+
+def _child_localeenv():
+    """runs in a freshly exec'ed interpreter whose os.environ carried the locale variables from the start"""
+    import locale
+    real = locale.setlocale
+    log = []          # every setlocale(category, <locale>) call: [category, locale, lock held?, caller]
+    holder = {}
+
+    def patched(category, loc=None):
+        if loc is not None:
+            px = holder.get('proxy')
+            log.append([category, str(loc), bool(px.locked()) if px is not None else False, sys._getframe(1).f_code.co_name])
+        return real(category) if loc is None else real(category, loc)
+
+    import sys
+    locale.setlocale = patched
+    start = {'LC_COLLATE': real(locale.LC_COLLATE), 'LC_CTYPE': real(locale.LC_CTYPE)}
+    import elementpath
+    import elementpath.collations as colls
+    holder['proxy'] = colls._locale_collate_lock = _LockProxy(colls._locale_collate_lock)
+    root = _new_root(False)
+    out = {'start': start, 'default_collation': {}, 'results': {}, 'env': {k: os.environ.get(k) for k in _LE_VARS}}
+    for ver in ('2.0', '3.0', '3.1'):
+        P = _parser_class(ver)
+        out['default_collation'][ver] = [P().default_collation, elementpath.Selector('1', parser=P).parser.default_collation]
+        for minv, expr in _LE_QUERIES:
+            if ver >= minv:
+                for api in ('select', 'token'):
+                    out['results'][f'{ver} {api} {expr}'] = _outcome(lambda: _evaluate(api, expr, {}, {}, ver, root))[0]
+    out['end'] = {'LC_COLLATE': real(locale.LC_COLLATE), 'lock': holder['proxy'].locked()}
+    out['setlocale_calls'] = log
+    return out
+
+
+def _exec_localeenv(env_cfg):
+    import subprocess
+    import sys
+    import elementpath
+    repo = os.path.dirname(os.path.dirname(os.path.abspath(elementpath.__file__)))
+    verif = os.path.dirname(os.path.dirname(os.path.dirname(os.path.abspath(__file__))))
+    env = {k: v for k, v in os.environ.items() if not (k.startswith('LC_') or k in ('LANG', 'LANGUAGE', 'PYTHONUTF8'))}
+    env.update(PYTHONCOERCECLOCALE='0', PYTHONHASHSEED='0', PYTHONDONTWRITEBYTECODE='1')
+    env.update({k: v for k, v in env_cfg.items() if v is not None})
+    try:
+        p = subprocess.run([sys.executable, '-c', _LE_SCRIPT, json.dumps([repo, verif])], env=env, capture_output=True, text=True,
+                           timeout=CHILD_TIMEOUT * 2)
+    except subprocess.TimeoutExpired:
+        return None
+    if '@@C19@@' not in p.stdout:
+        raise HarnessError(f'C19 localeenv child failed (rc={p.returncode}) env={env_cfg}:\n' + p.stderr[-2000:])
+    return json.loads(p.stdout.split('@@C19@@', 1)[1])
+
+
+_le_baseline: list = []
+
+
+def _le_class(env_cfg):
+    vals = [v for v in env_cfg.values() if v is not None]
+    return 'utf8-locale' if any(v in ('C.UTF-8', 'C.utf8') for v in vals) else 'unset' if not vals else 'other'
+
+
+def judge_localeenv(case, rec: Recorder | None = None) -> list[Disc]:
+    discs: list[Disc] = []
+    if not _le_baseline:
+        _le_baseline.append(_exec_localeenv({}))
+    base = _le_baseline[0]
+    got = _exec_localeenv(case['env'])
+    if got is None or base is None:
+        if rec is not None:
+            rec.cls('inconclusive:localeenv-timeout')
+        return discs
+    where = f'environment {case["env"]}'
+    cls = _le_class(case['env'])
+    for c in got['setlocale_calls']:
+        if not c[2]:
+            discs.append(Disc(f'C19/localeenv/setlocale-outside-collation-lock/{c[3]}', 'no category switch outside CollationManager',
+                              f'setlocale({c[0]}, {c[1]!r}) called from {c[3]} without the lock', where))
+            break
+    if got['start']['LC_COLLATE'] != 'C':
+        raise HarnessError(f'precondition: fresh interpreter starts with LC_COLLATE={got["start"]["LC_COLLATE"]!r} for {case["env"]}')
+    if _lcnorm(got['end']['LC_COLLATE']) != _lcnorm(got['start']['LC_COLLATE']):
+        discs.append(Disc('C19/lc-collate-changed/localeenv', got['start']['LC_COLLATE'], got['end']['LC_COLLATE'], where))
+    if got['end']['lock']:
+        discs.append(Disc('C19/lock-held/localeenv', 'unlocked', 'locked', where))
+    for ver, dc in got['default_collation'].items():
+        if dc != base['default_collation'][ver]:
+            discs.append(Disc(f'C19/localeenv/default-collation-depends-on-environment/{cls}', base['default_collation'][ver], dc,
+                              f'parser {ver} {where}'))
+            break
+    for key, out in got['results'].items():
+        if out != base['results'][key]:
+            fn = key.split(' ', 2)[2].split('(')[0]
+            discs.append(Disc(f'C19/localeenv/result-depends-on-environment/{fn}', base['results'][key], out, f'{key} {where}'))
+            break
+    bad = [k for k, o in base['results'].items() if o[0] == 'escape']
+    if bad:
+        discs.append(Disc('C19/localeenv/escape-in-baseline', 'value', base['results'][bad[0]], bad[0]))
+    if rec is not None:
+        rec.case(['localeenv', case['env']], nontrivial=cls != 'unset', sample={'check': 'localeenv', 'env': case['env'],
+                 'default_collation': got['default_collation']['3.1'][0]}, classes=['localeenv:config', 'localeenv:' + cls],
+                 n=len(got['results']))
+    return discs
+
+
+def _le_configs(tier, seed):
+    import itertools
+    from vp.core import h64
+    allc = [dict(zip(_LE_VARS, vs)) for vs in itertools.product(_LE_VALUES, repeat=3)]
+    must = [{'LC_ALL': 'C.UTF-8', 'LC_COLLATE': None, 'LANG': None}, {'LC_ALL': None, 'LC_COLLATE': 'C.utf8', 'LANG': None},
+            {'LC_ALL': None, 'LC_COLLATE': None, 'LANG': 'C.UTF-8'}, {'LC_ALL': 'garbage', 'LC_COLLATE': 'C.UTF-8', 'LANG': 'C.utf8'},
+            {'LC_ALL': None, 'LC_COLLATE': None, 'LANG': None}, {'LC_ALL': '', 'LC_COLLATE': 'en_US.UTF-8', 'LANG': 'C.UTF-8'}]
+    if tier != 'quick':
+        return allc
+    rest = sorted((c for c in allc if c not in must), key=lambda c: h64([seed, 'localeenv', c]))
+    return must + rest[:22]
+
+
+# --------------------------------------------------------------------------
 # module interface
 # --------------------------------------------------------------------------
 _STRATS = {'history': history_case, 'env': env_case, 'entities': entities_case, 'threads': threads_case}
-_JUDGES = {'history': judge_history, 'env': judge_env, 'entities': judge_entities, 'threads': judge_threads}
+_JUDGES = {'history': judge_history, 'env': judge_env, 'entities': judge_entities, 'threads': judge_threads,
+           'localeenv': judge_localeenv}
 
 
 def selftest():
@@ -1299,8 +1499,8 @@ def selftest():
 
 def jobs(tier, seed):
     q = tier == 'quick'
-    plan = {'history': (8, 30) if q else (10, 350), 'env': (2, 60) if q else (2, 1000),
-            'entities': (3, 60) if q else (2, 1000), 'threads': (3, 30) if q else (2, 300)}
+    plan = {'history': (7, 34) if q else (8, 430), 'env': (2, 60) if q else (2, 1000),
+            'entities': (2, 90) if q else (1, 2000), 'threads': (2, 45) if q else (1, 600)}
     out = []
     for chk, (shards, n) in plan.items():
         for i in range(shards):
@@ -1308,6 +1508,11 @@ def jobs(tier, seed):
     # complete sweep of the state-sensitive plain expressions (every expression x api x decimal precision):
     # sampled histories reach each of them only a few times per run
     out.append({'check': 'history', 'sweep': 'plain'})
+    # locale variables of the environment: every configuration in its own exec'ed interpreter (quick: 28, thorough: all 343)
+    cfgs = _le_configs(tier, seed)
+    k = 2 if q else 4
+    for i in range(k):
+        out.append({'check': 'localeenv', 'cases': [{'env': c} for c in cfgs[i::k]]})
     return out
 
 
@@ -1328,6 +1533,10 @@ def run_job(job, rec: Recorder):
             rec.discs_of(chk, case, jd(case, rec))
             rec.cls('history:plain-sweep')
         return
+    if 'cases' in job:
+        for case in job['cases']:
+            rec.discs_of(chk, case, jd(case, rec))
+        return
     hyp_collect(_STRATS[chk], lambda case: rec.discs_of(chk, case, jd(case, rec)), job['n'], job['seed'], rec)
 
 
@@ -1335,6 +1544,12 @@ def shrink_job(job, bucket, budget):
     chk = job['check']
     if job.get('sweep'):
         for case in _sweep_cases():
+            for d in _JUDGES[chk](case):
+                if d.bucket == bucket:
+                    return case, d
+        return None
+    if 'cases' in job:
+        for case in job['cases']:
             for d in _JUDGES[chk](case):
                 if d.bucket == bucket:
                     return case, d
